@@ -235,7 +235,7 @@ func newXTS(m *mon.M, key []byte) *xts.Cipher {
 func TestC13(t *testing.T) {
 	m := mon.New(t, "C13")
 	defer m.Done()
-	m.Rule("stream xts: case i fixes the key size (i mod 8: 32,32,32,64,64,64,48,32/64 -> AES-128/256/192 pairs), the sector class ((i div 8) mod 4: 0 -> the boundary set {0,1,2^32-1,2^32,2^63,2^64-1} in rotation, 1 -> neighbours of the boundaries, else random 64-bit / small) and draws key (75% random, else zero, key1=key2, halves differing in one bit), length 16k with k log-uniform in 1..256 (thorough: sometimes up to 4096 blocks) and plaintext (random/zero/ones/identical blocks); per case: Encrypt vs IEEE 1619 ref (separate buffers, dst==src), Decrypt(Encrypt(x))=x (both), Decrypt(x) vs ref; 1/16 of the cases additionally run 4 goroutines on one Cipher. Exhaustive parts (batch 0): every length 16..4096 step 16 for AES-128 and AES-256; every boundary sector x key size; NewCipher with every key length 0..80; refused inputs (lengths not a multiple of 16, dst shorter than src) must panic and valid ones must not; ciphers with block size != 16 must be refused. distinct = (key size, key kind, sector class, length class); non-trivial = reached a ref comparison or an expected-panic observation")
+	m.Rule("stream xts: case i fixes the key size (i mod 8: 32,32,32,64,64,64,48,32/64 -> AES-128/256/192 pairs), the sector class ((i div 8) mod 4: 0 -> the boundary set {0,1,2^32-1,2^32,2^63,2^64-1} in rotation, 1 -> neighbours of the boundaries, else random 64-bit / small) and draws key (75% random, else zero, key1=key2, halves differing in one bit), length 16k with k log-uniform in 1..256 (thorough: sometimes up to 4096 blocks) and plaintext (random/zero/ones/identical blocks); per case: Encrypt vs IEEE 1619 ref (separate buffers, dst==src), Decrypt(Encrypt(x))=x (both), Decrypt(x) vs ref; 1/16 of the cases additionally run 4 goroutines on one Cipher. Enumerated parts: every length 16..4096 step 16 for AES-128 and AES-256; every boundary sector x key size; NewCipher with every key length 0..80; refused inputs (lengths not a multiple of 16, dst shorter than src) must panic and valid ones must not; ciphers with block size != 16 must be refused. distinct = (key size, key kind, sector class, length class); non-trivial = reached a ref comparison or an expected-panic observation")
 	m.Assume("xtsref (math/big GF(2^128) doubling over crypto/aes) is validated on IEEE 1619 vectors 1,2,3,4,10 and against libgcrypt and nettle; crypto/aes is trusted (AES is not under test); libgcrypt has no XTS-AES-192: AES-192 pairs are judged by ref + nettle (generic xts over aes192)")
 	m.Assume("sector number -> tweak is the 128-bit little-endian encoding of IEEE 1619 §5.1; the witnesses receive the tweak bytes produced by the ref's encoder (validated by IEEE vectors with sector 0x3333333333 and 0xff)")
 
@@ -283,7 +283,7 @@ func TestC13(t *testing.T) {
 			m.Count("sector_above_2^32_cases", 1)
 		}
 		m.Distinct(fmt.Sprintf("xts %s %s sector=%s blocks=%s", aesName(klen), kind, sectorClass(sector), blocksClass(k)))
-		if i < 4 {
+		if i == 0 || i == 9 || i == 19 || i == 38 {
 			m.Sample(map[string]any{"key": mon.Hex(key), "sector": fmt.Sprintf("%#x", sector), "blocks": k})
 		}
 		if i%16 == 5 { // one Cipher shared by 4 goroutines (tweak pool reuse)
@@ -314,7 +314,7 @@ func TestC13(t *testing.T) {
 	})
 
 	// ---- exhaustive: every length 16..4096 for AES-128 and AES-256 pairs ----
-	m.Each("xts-every-length", 2*256, func(i int64, r *rand.Rand) {
+	m.Cases("xts-every-length", 2*256, func(i int64, r *rand.Rand) {
 		klen := []int{32, 64}[i/256]
 		k := 1 + int(i%256)
 		key := mon.Bytes(r, klen)
@@ -340,7 +340,7 @@ func TestC13(t *testing.T) {
 			}
 		}
 	}
-	m.Each("xts-boundary-sectors", len(scs), func(i int64, r *rand.Rand) {
+	m.Cases("xts-boundary-sectors", len(scs), func(i int64, r *rand.Rand) {
 		s := scs[i]
 		key := mon.Bytes(r, s.klen)
 		c := newXTS(m, key)
